@@ -29,17 +29,18 @@ func (World) Stub(prop string) []string {
 		"epoch-start notifier: epochStart/mock.EpochStartNotifierStub (counts notifications); app status handler stub",
 		"block production: the driver builds the epoch-start meta block the way the meta processor does (Epoch = trigger.Epoch(), Round = round of the last Update, PrevEpochStartRound = round of the previous epoch-start block, PrevHash = hash of a parent header) and calls SetProcessed after commit",
 		"revert: the driver calls RevertStateToBlock(parent of the epoch-start block) / RevertStateToBlock(epoch-start block) as the block processor does on rollback; the genesis epoch-start block is pre-stored under its epoch-start identifier as the genesis creator does",
-		"restart: a new trigger over the same disks followed by LoadState(last saved state key), as the bootstrapper does",
+		"restart: a new trigger over the same disks followed by LoadState(state key recorded with the current chain head), as the bootstrapper does with the boot storer entry of the head block",
 		"hardfork trigger collaborators: export factory, import-start handler, epoch-confirmed notifier (never calls back, so no export is started), stop channel; message timestamps are far in the future so the wall-clock grace check never decides anything",
 	}
 }
 
 func (World) Assumptions(prop string) []string {
 	return []string{
-		"an epoch start is an observed increase of Epoch(); every operation is bracketed by reads of Epoch()/IsEpochStart()/EpochStartRound(): any increase must be by exactly one and EpochStartRound() must have grown by at least MinRoundsBetweenEpochs",
-		"'without forcing': no ForceEpochStart call (direct or through the hardfork trigger) since the last epoch start or restart; then an Update starts the epoch iff round > EpochStartRound()+RoundsPerEpoch (both directions), provided no start is pending and nonce >= 4 (the code's genesis edge case nonce < 4 never starts an epoch; counted as probe, not asserted)",
+		"an epoch start is an observed increase of Epoch() (every operation is bracketed by reads of Epoch()/IsEpochStart()/EpochStartRound()): the increase must be exactly one, and the round of the Update that started the epoch must be at least MinRoundsBetweenEpochs after the start round of the previous epoch",
+		"the start round of the current epoch is taken from the history the driver produced, not from the trigger: the round of the Update that started it, then the round of its committed epoch-start block (SetProcessed), after a rollback of that block the round of the previous epoch's start block, after a restart the state that was saved under the boot key (the driver mirrors which state the registry saved under which key); on the repaired tree EpochStartRound()/Epoch() agreed with this history after every step (probe reported_state_differs_from_history = 0)",
+		"'without forcing': no ForceEpochStart call (direct or through the hardfork trigger) since the last epoch start or restart; then an Update starts the epoch iff round > start round + RoundsPerEpoch (both directions), provided the previous epoch-start block is committed and nonce >= 4 (the code's genesis edge case nonce < 4 never starts an epoch; counted as probe, not asserted)",
 		"with a force pending only the +1 and the minimum-distance clauses are asserted",
-		"rounds given to Update never decrease (the node's round clock); the epoch-start block carries the round of the latest Update; Epoch()/EpochStartRound() decreasing on revert or restart is not an epoch start and asserts nothing",
+		"rounds given to Update never decrease (the node's round clock); the epoch-start block carries the round of the latest Update; SetFinalityAttestingRound is only called for a committed epoch-start block; a restart loads the state key recorded with the current chain head (rolled back together with the head); Epoch() changing on revert or restart is not an epoch start",
 		"constructor preconditions are enforced by the generator: 1 <= MinRoundsBetweenEpochs <= RoundsPerEpoch",
 	}
 }
@@ -53,7 +54,7 @@ func (World) Rule(prop string) string {
 }
 
 func (World) Budget(prop, tier string) int {
-	q := 16000
+	q := 20000
 	if tier == "thorough" {
 		return q * 30
 	}
